@@ -160,6 +160,7 @@ fn sweep(run: &Run, name: &str, skels: &[Vec<Sk>], max: usize, unroll: usize, at
                 let case = json!({"kind": "skeleton", "sweep": name, "max_stmts": max, "index": i,
                     "function": is_function, "unroll": unroll, "atoms": choice, "prologue": prologue, "fors": for_choice});
                 let def = marker_def_for(skel, is_function, choice, prologue, for_choice.clone());
+                run.watch(&case);
                 let (violations, stats) = check_def(&def, unroll, &case, 50_000);
                 run.eval(1);
                 run.add_traces(stats.paths as u64);
